@@ -2,8 +2,11 @@
 """Print the prompt for an independent seeded-change sub-agent for property PID (gets only the property text)."""
 import json, sys
 pid = sys.argv[1]
+rnd = sys.argv[2] if len(sys.argv) > 2 else ''
+root = f'/tmp/seed{rnd}-{pid}'
 p = [json.loads(l) for l in open('/verif/properties.jsonl') if json.loads(l)['id'] == pid][0]
-print(f"""You are a careful software engineer helping to evaluate a verification effort for the open-source Python numerical optics library prysm (brandondube/prysm). You are given ONE semantic property that the library is supposed to satisfy, and your own scratch git worktree of the library at /tmp/seed-{pid}/wt. Work ONLY inside /tmp/seed-{pid}/ — do not read or write anything under /verif, /repo or other /tmp directories (independence from the verification machinery is the whole point).
+extra = "" if not rnd else " In this round prefer the kinds of change that are hardest to notice: behaviour that depends on the HISTORY of earlier calls or on object state (caches, memoised helpers, attributes changed after construction, module globals, lazily computed fields), on a CONFIGURATION (32-bit precision via prysm.conf.config.precision = 32, a backend shim, a non-default keyword argument, the Wavefront/Interferogram method form versus the plain function form), on the INTERACTION of two public routines, or on a narrow numeric regime (large orders, extreme aspect ratios, values near a branch point). Avoid a plain wrong-constant edit that any single call with generic inputs would expose."
+print(f"""You are a careful software engineer helping to evaluate a verification effort for the open-source Python numerical optics library prysm (brandondube/prysm). You are given ONE semantic property that the library is supposed to satisfy, and your own scratch git worktree of the library at {root}/wt. Work ONLY inside {root}/ — do not read or write anything under /verif, /repo or other /tmp directories (independence from the verification machinery is the whole point).
 
 THE PROPERTY ({pid}): {p['title']}
 Statement: {p['statement']}
@@ -14,13 +17,14 @@ YOUR TASK: produce TWO different, realistic source changes to the library (call 
   2. the property above is genuinely broken by the change (observable wrong behaviour at the public API, not just a style change);
   3. the breakage needs something specific to manifest — a particular input class (e.g. non-square or odd-sized arrays, a particular parameter range, an unusual option), a multi-step sequence of operations / history, a particular configuration, a fault at a particular point — NOT something ordinary use or the simplest call would expose at once;
   4. you provide a small demonstration program demo_A.py / demo_B.py (plain python, exits non-zero with a clear message when the property is violated, exits 0 otherwise) that FAILS with the change applied and PASSES on the unmodified worktree.
-Make A and B different in kind (different functions / mechanisms / input classes). Do not weaken or edit tests. Do not add new files to the library other than what the patch needs.
+Make A and B different in kind (different functions / mechanisms / input classes).{extra} Do not weaken or edit tests. Do not add new files to the library other than what the patch needs.
 
 PRACTICALITIES
 - The interpreter is /venv/bin/python (numpy 2.5, scipy present). IMPORTANT: a copy of prysm is installed in that venv pointing elsewhere, so ALWAYS run with PYTHONPATH set to your worktree so that YOUR copy is imported, e.g.
-    cd /tmp/seed-{pid}/wt && PYTHONPATH=/tmp/seed-{pid}/wt /venv/bin/python -c "import prysm; print(prysm.__file__)"   # must print a path under /tmp/seed-{pid}/wt
-- Test-suite: cd /tmp/seed-{pid}/wt && PYTHONPATH=/tmp/seed-{pid}/wt /venv/bin/python -m pytest -q -p no:cacheprovider --timeout=900 --continue-on-collection-errors -n 4 -ra 2>&1 | tail -60    (≈1 minute). Run it once on the unmodified worktree first and save the list of failing tests for comparison; there is no network.
-- Produce each patch with `git -C /tmp/seed-{pid}/wt diff > /tmp/seed-{pid}/out/patch_A.diff` (then `git -C /tmp/seed-{pid}/wt checkout -- .` before starting B so that A and B are independent patches against the same base).
-- Write to /tmp/seed-{pid}/out/: patch_A.diff, demo_A.py, patch_B.diff, demo_B.py and notes.md (for each change: what it breaks, exactly what is needed for it to manifest, the commands you ran and their results: test-suite same as baseline yes/no, demo fails with / passes without).
+    cd {root}/wt && PYTHONPATH={root}/wt /venv/bin/python -c "import prysm; print(prysm.__file__)"   # must print a path under {root}/wt
+- Test-suite: cd {root}/wt && PYTHONPATH={root}/wt /venv/bin/python -m pytest -q -p no:cacheprovider --timeout=900 --continue-on-collection-errors -n 4 -ra 2>&1 | tail -60    (≈1 minute). Run it once on the unmodified worktree first and save the list of failing tests for comparison; there is no network.
+- Produce each patch with `git -C {root}/wt diff > {root}/out/patch_A.diff` (then `git -C {root}/wt checkout -- .` before starting B so that A and B are independent patches against the same base).
+- Write to {root}/out/: patch_A.diff, demo_A.py, patch_B.diff, demo_B.py and notes.md (for each change: what it breaks, exactly what is needed for it to manifest, the commands you ran and their results: test-suite same as baseline yes/no, demo fails with / passes without).
+- NEVER use 'git stash' (the stash is shared between worktrees of other people); to switch between patched and clean use 'git diff > file', 'git checkout -- .', 'git apply file'.
 - Leave the worktree clean (git checkout -- .) when done. Your final message: a short summary of A and B (what/where/what it needs to manifest) and confirmation of the four requirements for each.
 """)
